@@ -238,5 +238,52 @@ def fragGcdExt (f : Form) (a b : List Nat) : Frag :=
       { fr with ops := (if aVal then [] else [.bufFromView 5 0]) ++ (if bVal then [] else [.bufFromView 6 1]) ++ fr.ops }
   { fr with ops := formPre f ++ fr.ops }
 
+/-- `gcd` / `gcd_ext` where one or both operands are `IBig` (gcd_ops.rs `forward_ibig_binop_to_repr!`,
+    `forward_ubig_ibig_binop_to_repr!`, `forward_ibig_ubig_binop_to_repr!` with `impl_ibig_gcd` / `impl_ibig_gcd_ext`): a by-value
+    `IBig` operand is taken apart by `into_sign_repr` (`aI` / `bI` = that operand is an `IBig`), a by-value `UBig` by `into_repr`;
+    the magnitudes run the `UBig` skeleton; `gcd_ext` multiplies the coefficients by the operand signs
+    (`sign0 * IBig(s)` = `with_sign(sign0 * s.sign())`, no storage event).  `ext` selects `gcd_ext`. -/
+def fragMixedGcd (ext : Bool) (f : Form) (aI na : Bool) (a : List Nat) (bI nb : Bool) (b : List Nat) : Frag :=
+  let aVal := f == .vr || f == .vv
+  let bVal := f == .rv || f == .vv
+  let pre : List AOp := (if aVal then [if aI then .intoSignTyped 0 else .intoTyped 0] else []) ++
+    (if bVal then [if bI then .intoSignTyped 1 else .intoTyped 1] else [])
+  if !ext then
+    let fr := fragGcdTyped W aVal bVal a b
+    { fr with ops := pre ++ fr.ops }
+  else
+    let fr := (fragGcdExt W f a b).noIntoTyped
+    -- the signs of the coefficients the magnitude computation returned (C12's value model of the same dispatch)
+    let signs : List AOp :=
+      match fr.panic, fr.res2, fr.res3, NT.gcdExtRepr W (NT.lehmerExtKernel W) (wval W a) (wval W b) with
+      | none, some r2, some r3, .ok (_, s, t) =>
+        [.withSign r2 ((aI && na) != decide (s < 0)), .withSign r3 ((bI && nb) != decide (t < 0))]
+      | _, _, _, _ => []
+    { fr with ops := pre ++ fr.ops ++ signs }
+
+-- ================================================================== `!IBig` as a public operator
+
+/-- `!IBig` / `!&IBig` (bits.rs `impl Not for IBig`, `impl Not for &IBig`): `into_sign_repr` / `as_sign_repr`, then
+    `mag.add_one().with_sign(Negative)` for a non-negative operand and `mag.sub_one().with_sign(Positive)` for a negative one
+    (add_ops.rs `TypedRepr(Ref)::add_one / sub_one`: `add_dword(d, 1)` / `from_dword(d - 1)`; `add_large_one` with
+    `push_resizing(1)` on carry / `sub_large_one`, in the operand's own buffer by value, in a copy (`buffer.into()`) by reference) -/
+def fragNot (byVal na : Bool) (a : List Nat) : Frag :=
+  let l := a.length; let v := wval W a
+  let pre : List AOp := if byVal then [.intoSignTyped 0] else []
+  let r := if byVal then 0 else 2
+  let cp : List AOp := if byVal then [] else [.bufFromView 2 0]
+  let fr : Frag :=
+    if !na then
+      if isSmall a then
+        let fr := fAddDword W v 1
+        { fr with ops := fr.ops ++ [.withSign fr.res true] }
+      else
+        { ops := cp ++ [.overwrite r (toWords W l (v + 1))] ++ (if v + 1 ≥ 2 ^ (W * l) then [.pushResizing r 1] else []) ++
+                 [.fromBuffer r, .withSign r true], res := r }
+    else
+      if isSmall a then { ops := [dwOp W 2 (v - 1), .withSign 2 false] }
+      else { ops := cp ++ [.overwrite r (toWords W l (v - 1)), .fromBuffer r, .withSign r false], res := r }
+  { fr with ops := pre ++ fr.ops }
+
 end
 end Dashu.Model.Mem
